@@ -334,4 +334,96 @@ example : demoCalcD.hasAttr "list" = false ∧ demoCalcD.hasAttr "unchecked" = f
      | .ok r => r.children.map (fun c => (c.name, c.value, c.hasAttr "injected")) == [("job", "run1", true), ("tol", "", false)]
      | .error _ => false) = true := by decide +kernel
 
+/-! ## link resolution (`ResolveLinks`) -/
+
+/-- a node without a `link` attribute is not touched by the splice step -/
+theorem spliceAll_nolink (pkgs : List (String × PTree)) (t : PTree) (h : t.attr "link" = none) : spliceAll pkgs t = some t := by
+  unfold spliceAll; rw [h]
+
+/-- a package is spliced in by appending the children of its root after the node's own, in file order; name and value stay -/
+theorem splice_shape (t root : PTree) :
+    (splice t root).children = t.children ++ root.children ∧ (splice t root).name = t.name ∧ (splice t root).value = t.value := by
+  cases t; exact ⟨rfl, rfl, rfl⟩
+
+theorem lookup_insertAttr_ne (k k' v' : String) (a : List (String × String)) (hne : k ≠ k') :
+    (insertAttr k' v' a).lookup k = a.lookup k := by
+  induction a with
+  | nil => simp [insertAttr, List.lookup, hne]
+  | cons x xs ih =>
+    obtain ⟨xk, xv⟩ := x
+    have hb0 : (k == k') = false := by simpa using hne
+    unfold insertAttr
+    split
+    · simp only [List.lookup, hb0]
+    · split
+      · rename_i _ heq
+        have hx : k' = xk := by simpa using heq
+        subst hx
+        simp only [List.lookup, hb0]
+      · by_cases hk : k = xk
+        · subst hk; simp [List.lookup]
+        · have hb : (k == xk) = false := by simpa using hk
+          simp only [List.lookup, hb]
+          exact ih
+
+/-- **the node's own attributes win**: an attribute the linking node has itself keeps its value whatever the packages declare -/
+theorem splice_keeps_own_attr (t root : PTree) (k v : String) (h : t.attr k = some v) : (splice t root).attr k = some v := by
+  cases t with
+  | node n val attrs cs =>
+    simp only [PTree.attr, PTree.attrs] at h
+    simp only [splice, PTree.attr, PTree.attrs]
+    suffices H : ∀ (ra a : List (String × String)), a.lookup k = some v →
+        (ra.foldl (fun a kv => if a.any (·.1 == kv.1) then a else insertAttr kv.1 kv.2 a) a).lookup k = some v from H _ _ h
+    intro ra
+    induction ra with
+    | nil => intro a ha; simpa using ha
+    | cons kv rest ih =>
+      intro a ha
+      simp only [List.foldl_cons]
+      apply ih
+      split
+      · exact ha
+      · rename_i hany
+        by_cases hk : k = kv.1
+        · exfalso
+          apply hany
+          subst hk
+          have : ∃ p ∈ a, p.1 = kv.1 := by
+            clear ih hany
+            induction a with
+            | nil => simp [List.lookup] at ha
+            | cons y ys ihy =>
+              by_cases hy : kv.1 = y.1
+              · exact ⟨y, List.mem_cons_self, hy.symm⟩
+              · have hb : (kv.1 == y.1) = false := by simpa using hy
+                simp only [List.lookup, hb] at ha
+                obtain ⟨p, hp, hpk⟩ := ihy ha
+                exact ⟨p, List.mem_cons_of_mem _ hp, hpk⟩
+          simpa [List.any_eq_true] using this
+        · rw [lookup_insertAttr_ne k kv.1 kv.2 a hk]; exact ha
+
+/-- one resolution step: the result keeps name and value of the node, and its children are the resolved children of the
+    spliced node, one for one and in order -/
+theorem resolveLinks_step (pkgs : List (String × PTree)) (fuel : Nat) (t t1 r : PTree)
+    (hs : spliceAll pkgs t = some t1) (hr : resolveLinks pkgs (fuel + 1) t = some r) :
+    r.name = t1.name ∧ r.value = t1.value ∧ r.attrs = t1.attrs ∧ t1.children.mapM (resolveLinks pkgs fuel) = some r.children := by
+  unfold resolveLinks at hr
+  rw [hs] at hr
+  simp only at hr
+  split at hr
+  · rename_i cs hcs
+    cases hr
+    exact ⟨rfl, rfl, rfl, hcs⟩
+  · cases hr
+
+/-! non-vacuity: a node linking two packages; the second package's leaves arrive, the node's own attribute wins -/
+def demoPkgs : List (String × PTree) :=
+  [("a.xml", node "a" "" [("help", "from a"), ("x", "1")] [node "id" "" [("default", "0")] []]),
+   ("b.xml", node "b" "" [("help", "from b")] [node "tol" "" [("default", "1e-5")] [], node "sub" "" [("link", "a.xml")] []])]
+def demoLinked : PTree := node "region" "" [("help", "own"), ("link", "a.xml b.xml")] []
+example : (match resolveLinks demoPkgs 10 demoLinked with
+    | some r => r.attr "help" == some "own" && r.attr "x" == some "1" &&
+        r.children.map (fun c => (c.name, c.children.map (·.name))) == [("id", []), ("tol", []), ("sub", ["id"])]
+    | none => false) = true := by decide +kernel
+
 end Votca.C11
